@@ -344,6 +344,58 @@ theorem rates_eq_counts (cf : F → F → F → F → Except Err (Results F)) (r
       exact h2 p hp
 
 
+/-! ### Round 4: rows with a recorded person-time of exactly zero; non-integer counts; the reference level -/
+
+/-- the event count of a level never reads the person-time column: whatever is recorded as a row's time (0, NaN,
+    anything) the row is counted iff its exposure and outcome say so.  In particular a subject whose follow-up is
+    exactly 0 and who had the event is an event of its exposure group. -/
+theorem events_indep_time (rows : List (MRow F)) (g : MRow F → Option F) (lvl : Nat) (dv : Bool) :
+    cntED (rows.map fun r => { r with t := g r }) lvl dv = cntED rows lvl dv := by
+  unfold cntED
+  rw [List.filter_map, List.length_map]
+  rfl
+
+theorem sumBy_filter_and_zero {α : Type} (f : α → F) (p q : α → Bool) (l : List α)
+    (h : ∀ x, p x = true → q x = false → f x = 0) :
+    sumBy f (l.filter fun x => p x && q x) = sumBy f (l.filter p) := by
+  induction l with
+  | nil => rfl
+  | cons x xs ih =>
+    rw [List.filter_cons, List.filter_cons]
+    cases hp : p x <;> cases hq : q x
+    · simpa using ih
+    · simpa using ih
+    · simp only [Bool.and_false, Bool.false_eq_true, if_false, if_true, sumBy, ih, h x hp hq, zero_add]
+    · simp only [Bool.and_true, if_true, sumBy, ih]
+
+/-- ... and such a row adds nothing to the person-time of its group: deleting the rows with a recorded time of 0
+    leaves every group's person-time as it is (while, by `events_indep_time`, the events stay where they are: the
+    deletion is NOT an equivalent way of preparing the frame) -/
+theorem personTime_zero_rows (rows : List (MRow F)) (lvl : Nat) :
+    personTime (rows.filter fun r => decide (r.t ≠ some 0)) lvl = personTime rows lvl := by
+  unfold personTime
+  rw [List.filter_filter]
+  refine sumBy_filter_and_zero (F := F) _ (fun r => r.e == some lvl && r.d.isSome) (fun r => decide (r.t ≠ some 0)) rows ?_
+  intro r _ hq
+  have : r.t = some 0 := by simpa using hq
+  simp [this]
+
+/-- the comparison is made against the level that was asked for and no other: `fit` succeeds only when the reference
+    is an observed level, and a level `i` is reported iff it is observed and differs from the reference -/
+theorem reference_is_a_level (cf : F → F → F → F → Except Err (Results F)) (rows : List (MRow F)) (ref : Nat)
+    (out : List (Nat × Results F)) (h : fitCounts cf rows ref = .ok out) :
+    ref ∈ levelSet rows ∧ ∀ i, i ∈ out.map (·.1) ↔ (i ∈ levelSet rows ∧ i ≠ ref) := by
+  have h1 := (frame_eq_counts cf rows ref out h).1
+  unfold fitCounts otherLevels at h
+  simp only at h
+  split at h
+  · cases h
+  · rename_i lv hlv
+    split_ifs at hlv with hc
+    · refine ⟨by simpa using hc, ?_⟩
+      intro i; rw [h1]; simp [List.mem_filter]
+
+
 /-! ### Non-vacuity: the hypotheses are met by concrete tables -/
 /-- a throw-away `Transc ℚ` used only to instantiate the examples below -/
 local instance : Transc ℚ := ⟨id, id, id⟩
@@ -353,5 +405,16 @@ example : ∃ r, risk_ratio (F := ℚ) id 0 45 55 21 79 (1/20) = .ok r ∧ r.poi
 
 example : (∃ e, risk_ratio (F := ℚ) id 0 0 55 21 79 (1/20) = .error e) := by
   rw [rr_reject_iff]; norm_num
+
+/-- non-integer counts (a continuity-corrected table: every cell + 1/2) are within every `*_def` theorem -/
+example : ∃ r, odds_ratio (F := ℚ) id 0 (25/2) (15/2) (7/2) (41/2) (1/20) = .ok r ∧
+    r.point = ((25/2) * (41/2)) / ((15/2) * (7/2)) := by
+  simp only [odds_ratio]; norm_num
+
+/-- a subject with follow-up 0 who had the event: one event, no person-time -/
+example : cntED [(⟨some 1, some true, some 0⟩ : MRow ℚ), ⟨some 1, some false, some 3⟩] 1 true = 1 ∧
+    personTime [(⟨some 1, some true, some 0⟩ : MRow ℚ), ⟨some 1, some false, some 3⟩] 1 = 3 := by
+  refine ⟨by decide, ?_⟩
+  simp [personTime, sumBy]
 
 end ZV.P07
